@@ -1,2 +1,352 @@
-"""nnx_model (library models)"""
+"""flax.nnx model: networks as uninterpreted row-wise functions of their
+parameters (DESIGN 3.3), parameter trees as leaf functions, optimizers with a
+ghost binding to the module they were created for, value_and_grad with the
+gradient-flow ghost.  ASSUMED contracts.
+
+A leaf network is an Obj with class tag 'flax.nnx.Module' and ghost fields
+  $F      python str   name of its function symbol
+  $params Sym(PARAMS)  current parameter tree (leaf(p, l): Real)
+  $out    output feature count (int | Sym) or tuple for multi-head outputs
+Calling it on a tensor of shape (..., D) applies F row-wise:
+  net(X)[b, c] = comp(apply_F(params, row(X, b)), c)
+Batch independence of every layer type used by rl_blox (Linear, LayerNorm,
+activations; no BatchNorm / Dropout) is the assumption behind "row-wise".
+"""
+from __future__ import annotations
+
+from fractions import Fraction
+
+import z3
+
+from .. import core as C
+from .. import tensor as T
+from ..core import BOOL, INT, KEY, REAL, ROW, VAL, Builtin, ClassInfo, Closure, NDArr, Obj, Opaque, Partial, PyRaise, Sym, Unsupported
+from ..tensor import Tensor
 from . import LIB
+from .jax_model import _identity_decorator, tt
+
+PARAMS = z3.DeclareSort("Params")
+OPTSTATE = z3.DeclareSort("OptState")
+comp = C.uf("comp", ROW, INT, REAL)
+leaf = C.uf("leaf", PARAMS, INT, REAL)
+MODULE = "flax.nnx.Module"
+
+
+def apply_fn(fname):
+    return C.uf(f"net_{fname}", PARAMS, ROW, ROW)
+
+
+def rows_tensor(E, name, batch_shape, feat, is_input=True):
+    """input tensor of shape batch_shape + (feat,) given by a row function"""
+    k = len(batch_shape)
+    base = E.st.fresh_name(name)
+    if k:
+        rf = z3.Function(base + "_row", *([INT] * k + [ROW]))
+        rows = lambda *b: rf(*[C.to_z3(x) for x in b])  # noqa: E731
+    else:
+        rc = z3.Const(base + "_row", ROW)
+        rows = lambda: rc  # noqa: E731
+    t = Tensor(tuple(batch_shape) + (feat,), lambda *i: Sym(comp(rows(*i[:-1]), C.to_z3(i[-1]))), REAL, rows=rows, name=name)
+    return t
+
+
+def ensure_rows(E, x: Tensor):
+    """row function of a tensor whose last axis is the feature axis"""
+    if x.rows is not None:
+        return x.rows
+    k = x.ndim - 1
+    base = E.st.fresh_name("mkrow")
+    if k:
+        rf = z3.Function(base, *([INT] * k + [ROW]))
+        rows = lambda *b: rf(*[C.to_z3(i) for i in b])  # noqa: E731
+        E.st.assume_forall([INT] * (k + 1), lambda *i: comp(rows(*i[:-1]), i[-1]) == C.as_real(x.at(*i)), "mkrow.comp")
+    else:
+        rc = z3.Const(base, ROW)
+        rows = lambda: rc  # noqa: E731
+        E.st.assume_forall([INT], lambda d: comp(rc, d) == C.as_real(x.at(d)), "mkrow.comp")
+    x.rows = rows
+    return rows
+
+
+def mk_net(E, name, out, params=None):
+    p = params if params is not None else E.st.fresh_sym(f"theta_{name}", PARAMS, is_input=False)
+    o = Obj(MODULE, {"$F": name, "$params": p, "$out": out}, name=name)
+    E.register(o)
+    return o
+
+
+def is_leaf_net(o):
+    return isinstance(o, Obj) and isinstance(o.cls, str) and "$F" in o.fields
+
+
+def leaf_nets(o, seen=None):
+    """all leaf networks reachable from a module object (in field order)"""
+    seen = set() if seen is None else seen
+    out = []
+    if id(o) in seen:
+        return out
+    seen.add(id(o))
+    if is_leaf_net(o):
+        return [o]
+    if isinstance(o, Obj):
+        for k, v in o.fields.items():
+            if k.startswith("$") and k != "$module":
+                continue
+            out.extend(leaf_nets(v, seen))
+    elif isinstance(o, (list, tuple)):
+        for v in o:
+            out.extend(leaf_nets(v, seen))
+    elif isinstance(o, dict):
+        for v in o.values():
+            out.extend(leaf_nets(v, seen))
+    return out
+
+
+def net_call(E, net, x):
+    x = tt(x)
+    if not isinstance(x, Tensor) or x.ndim == 0:
+        raise PyRaise("ValueError", "network applied to a scalar")
+    out = net.fields["$out"]
+    rows = ensure_rows(E, x)
+    F = apply_fn(net.fields["$F"])
+    p = net.fields["$params"].z
+    gd = x.gdeps | frozenset([net.name])
+    orow = lambda *b: F(p, rows(*b))  # noqa: E731
+    batch = x.shape[:-1]
+    if isinstance(out, tuple):
+        # multi-head output (e.g. (mean, log_var)): heads are consecutive blocks of the output row
+        heads = []
+        off = 0
+        for h in out:
+            heads.append(Tensor(batch + (h,), (lambda off: (lambda *i: Sym(comp(orow(*i[:-1]), C.to_z3(C.binop("+", off, i[-1]))))))(off), REAL, gd,
+                                rows=(lambda off: (lambda *b: C.uf("rowslice", ROW, INT, ROW)(orow(*b), C.to_z3(off))))(off)))
+            off = C.binop("+", off, h)
+        return tuple(heads)
+    return Tensor(batch + (out,), lambda *i: Sym(comp(orow(*i[:-1]), C.to_z3(i[-1]))), REAL, gd, rows=orow)
+
+
+@LIB.cls(MODULE)
+def _module(E, obj, name):
+    if name == "__call__":
+        if is_leaf_net(obj):
+            return Builtin(f"{obj.name}.__call__", lambda E, x, *a, **k: net_call(E, obj, x))
+        return NotImplemented
+    if name == "__init__":
+        return Builtin("Module.__init__", lambda E, *a, **k: None)
+    if name in ("train", "eval"):
+        return Builtin(f"Module.{name}", lambda E, *a, **k: None)
+    return NotImplemented
+
+
+LIB.class_bases["flax.nnx.module.Module"] = [MODULE]
+
+
+# ---------------------------------------------------------------- wrappers
+_identity_decorator("flax.nnx.jit")
+_identity_decorator("flax.nnx.remat")
+
+
+@LIB.fn("flax.nnx.cached_partial", doc="cached_partial(f, *args): partial application (caching is semantics-preserving)")
+def nnx_cached_partial(E, fn, *a, **k):
+    return Partial(fn, a, k)
+
+
+@LIB.fn("flax.nnx.vmap", doc="nnx.vmap: as jax.vmap, modules may be passed through (in_axes None)")
+def nnx_vmap(E, fn=None, in_axes=0, out_axes=0, **kw):
+    from .jax_model import vmap_call
+
+    if fn is None:
+        return Builtin("nnx.vmap()", lambda E, f: nnx_vmap(E, f, in_axes=in_axes, out_axes=out_axes))
+    return Builtin("nnx.vmapped", lambda E, *a, **k: vmap_call(E, fn, in_axes, out_axes, a, k))
+
+
+class Grad:
+    """gradient of a differentiated function: for which object, ghost deps"""
+
+    def __init__(self, wrt, gdeps, value):
+        self.wrt = wrt
+        self.gdeps = gdeps
+        self.value = value
+
+
+@LIB.fn("flax.nnx.value_and_grad", doc="value_and_grad(f, argnums, has_aux)(*args): (f(*args), d f / d args[argnums]); pure")
+def nnx_value_and_grad(E, fn, argnums=0, has_aux=False, **kw):
+    def call(E, *args, **kwargs):
+        if isinstance(argnums, (tuple, list)):
+            raise Unsupported("value_and_grad with several argnums")
+        if argnums >= len(args):
+            raise PyRaise("TypeError", "argnums out of range")
+        wrt = args[argnums]
+        E.st.ghost.setdefault("grad_calls", []).append(dict(fn=fn, wrt=wrt, args=args))
+        depth = E.st.ghost.get("in_grad", 0)
+        E.st.ghost["in_grad"] = depth + 1
+        before = E.snapshot_versions()
+        try:
+            out = E.call_value(fn, list(args), dict(kwargs))
+        finally:
+            E.st.ghost["in_grad"] = depth
+        after = E.snapshot_versions()
+        if before != after:
+            E.st.ghost.setdefault("impure_grad", []).append(getattr(fn, "qualname", str(fn)))
+        val = out[0] if has_aux else out
+        g = Grad(wrt, C.gdeps_of(val), val)
+        E.st.ghost["last_grad"] = g
+        return out, g
+
+    return Builtin("value_and_grad()", call)
+
+
+@LIB.fn("flax.nnx.grad")
+def nnx_grad(E, fn, argnums=0, has_aux=False, **kw):
+    vg = nnx_value_and_grad(E, fn, argnums, has_aux)
+
+    def call(E, *a, **k):
+        out, g = vg.fn(E, *a, **k)
+        return (g, out[1]) if has_aux else g
+
+    return Builtin("grad()", call)
+
+
+LIB.funcs["jax.value_and_grad"] = LIB.funcs["flax.nnx.value_and_grad"]
+LIB.funcs["jax.grad"] = LIB.funcs["flax.nnx.grad"]
+
+
+# --------------------------------------------------------------- optimizer
+OPT = "flax.nnx.Optimizer"
+
+
+def mk_optimizer(E, name, wrt):
+    o = Obj(OPT, {"$wrt": wrt, "$state": E.st.fresh_sym(f"optstate_{name}", OPTSTATE), "$nupdates": 0}, name=name)
+    E.register(o)
+    return o
+
+
+upd_params = C.uf("opt_step", PARAMS, OPTSTATE, INT, PARAMS)  # new params of leaf (old params, opt state, grad id)
+
+
+@LIB.cls(OPT)
+def _optimizer(E, obj, name):
+    if name == "update":
+        def f(E, model, grads=None, **kw):
+            if grads is None:
+                # old flax signature update(grads)
+                grads, model = model, obj.fields["$wrt"]
+            E.st.ghost.setdefault("opt_updates", []).append(dict(opt=obj, model=model, grads=grads))
+            gid = E.st.fresh("grad_id", INT)
+            for net in leaf_nets(model):
+                E.log_write(net.name, "$params")
+                net.fields["$params"] = Sym(upd_params(net.fields["$params"].z, obj.fields["$state"].z, gid))
+            E.log_write(obj.name, "$state")
+            obj.fields["$state"] = E.st.fresh_sym(f"optstate_{obj.name}", OPTSTATE)
+            obj.fields["$nupdates"] = C.binop("+", obj.fields["$nupdates"], 1)
+        return Builtin("Optimizer.update", f)
+    if name == "model":
+        return obj.fields["$wrt"]
+    if name == "step":
+        return obj.fields["$nupdates"]
+    return NotImplemented
+
+
+@LIB.fn("flax.nnx.Optimizer", doc="Optimizer(model, tx, wrt=nnx.Param): optimizer bound to `model`")
+def nnx_optimizer(E, model, tx=None, wrt=None, **kw):
+    node, fr = E.cur_call if E.cur_call else (None, None)
+    return mk_optimizer(E, E.alloc_name(fr, node, ":opt"), model)
+
+
+LIB.const("flax.nnx.Param", Opaque("nnx.Param"))
+
+
+# ------------------------------------------------------------------- state
+class StateVal:
+    """nnx.State snapshot: per leaf network a parameter term"""
+
+    def __init__(self, entries):
+        self.entries = entries  # list of (leaf name $F, params z3 term)
+
+
+polyak = C.uf("polyak", PARAMS, PARAMS, REAL, PARAMS)
+
+
+@LIB.fn("flax.nnx.state", doc="nnx.state(m): the parameter tree of m (read-only)")
+def nnx_state(E, m, *filters):
+    return StateVal([(n.fields["$F"], n.fields["$params"].z) for n in leaf_nets(m)])
+
+
+@LIB.fn("flax.nnx.update", doc="nnx.update(m, state): writes state into m, nothing else")
+def nnx_update(E, m, state):
+    nets = leaf_nets(m)
+    if not isinstance(state, StateVal) or len(state.entries) != len(nets):
+        raise PyRaise("ValueError", "nnx.update: state does not match the module structure")
+    for n, (fname, p) in zip(nets, state.entries):
+        E.log_write(n.name, "$params")
+        n.fields["$params"] = Sym(p)
+    E.st.ghost.setdefault("module_writes", []).append(m)
+
+
+@LIB.fn("optax.incremental_update", doc="incremental_update(new, old, s) = s*new + (1-s)*old leaf-wise")
+def optax_incremental_update(E, new, old, step_size):
+    if not (isinstance(new, StateVal) and isinstance(old, StateVal)) or len(new.entries) != len(old.entries):
+        raise PyRaise("ValueError", "incremental_update: tree structures differ")
+    s = C.as_real(step_size)
+    out = []
+    for (fa, a), (fb, b) in zip(new.entries, old.entries):
+        out.append((fb, polyak(a, b, s)))
+    E.st.assume_forall([PARAMS, PARAMS, REAL, INT], lambda a, b, t, l: leaf(polyak(a, b, t), l) == t * leaf(a, l) + (1 - t) * leaf(b, l), "polyak.leafwise")
+    return StateVal(out)
+
+
+@LIB.fn("flax.nnx.clone", doc="nnx.clone(m): structurally equal module with fresh identity and disjoint storage")
+def nnx_clone(E, m):
+    from .builtins_model import deep_copy
+
+    return deep_copy(E, m)
+
+
+@LIB.fn("flax.nnx.split", doc="nnx.split(m) -> (graphdef, state)")
+def nnx_split(E, m, *filters):
+    return (Opaque("graphdef", m), nnx_state(E, m))
+
+
+@LIB.fn("flax.nnx.merge", doc="nnx.merge(graphdef, state): module with graphdef's structure and state's parameters")
+def nnx_merge(E, graphdef, state, *rest):
+    m = nnx_clone(E, graphdef.payload)
+    nnx_update(E, m, state)
+    return m
+
+
+@LIB.fn("flax.nnx.Rngs")
+def nnx_rngs(E, *a, **k):
+    return Opaque("nnx.Rngs")
+
+
+@LIB.fn("flax.nnx.Linear", doc="nnx.Linear(n_in, n_out): affine row-wise layer")
+def nnx_linear(E, n_in, n_out, **kw):
+    node, fr = E.cur_call if E.cur_call else (None, None)
+    name = E.alloc_name(fr, node, ":linear").replace("rl_blox.", "")
+    return mk_net(E, E.st.fresh_name("linear"), n_out)
+
+
+LIB.funcs["flax.nnx.LayerNorm"] = Builtin("flax.nnx.LayerNorm", lambda E, n, **kw: mk_net(E, E.st.fresh_name("layernorm"), n))
+
+
+@LIB.fn("flax.nnx.Variable")
+def nnx_variable(E, v, **kw):
+    return v
+
+
+LIB.funcs["flax.nnx.Param"] = Builtin("flax.nnx.Param", lambda E, v, **kw: v)
+
+
+def _snapshot_versions(E):
+    out = []
+    for name, o in E.heap.items():
+        if isinstance(o, Obj) and "$params" in o.fields:
+            out.append((name, o.fields["$params"].z.get_id()))
+        if isinstance(o, Obj) and "$state" in o.fields:
+            out.append((name, o.fields["$state"].z.get_id()))
+    return out
+
+
+from ..interp import Executor  # noqa: E402
+
+Executor.snapshot_versions = _snapshot_versions
